@@ -1276,3 +1276,202 @@ Definition cow_throw_path := throw_path.
 Definition cow_lock_copy_throw := lock_copy_throw.
 Definition cow_lock_enabled_when_free := lock_enabled_when_free.
 Definition cow_nonowner_owns_nothing := nonowner_owns_nothing.
+
+(* ---------- C14: every program that gives its write handles back finishes - existence form ---------- *)
+(* A decidable walk over the occupancy of a thread's write-handle slots ([oc]: slot holds a live handle, [nl]: slot
+   holds a moved-from null handle object), mirroring exactly which operations the model refuses.  It asks for two
+   things only, both necessary (they are the two shapes of cow_quiescent_shape):
+     - at the end of the program no write handle is live (a thread that ends holding one blocks every later lock());
+     - lock() is not called while the thread holds a live write handle (it would wait for itself).
+   lock() may end by the copy's exception: then no handle exists, so both continuations are walked.
+   Snapshots are not mentioned: a held snapshot blocks nobody (held_snapshot_not_registered). *)
+Definition nolive (oc : list bool) : bool := forallb negb oc.
+Definition nullb (nl : list bool) (s : nat) : bool := match nth_error nl s with Some true => true | _ => false end.
+Fixpoint wf_run (oc nl : list bool) (p : list op) : bool :=
+  match p with
+  | [] => nolive oc
+  | Lock s :: r =>
+    match nth_error oc s with
+    | Some false => if nullb nl s then wf_run oc nl r
+                    else nolive oc && wf_run (upd oc s true) nl r && wf_run oc nl r
+    | _ => wf_run oc nl r
+    end
+  | Release s :: r | ReleaseUnw s :: r =>
+    match nth_error oc s with
+    | Some true => wf_run (upd oc s false) nl r
+    | _ => if nullb nl s then wf_run oc (upd nl s false) r else wf_run oc nl r
+    end
+  | Cancel s :: r =>
+    match nth_error oc s with
+    | Some true => wf_run (upd oc s false) nl r
+    | _ => wf_run oc nl r
+    end
+  | Move a b :: r =>
+    match nth_error oc a, nth_error oc b with
+    | Some true, Some false =>
+      if nullb nl b then wf_run oc nl r else wf_run (upd (upd oc b true) a false) (upd nl a true) r
+    | _, _ => wf_run oc nl r
+    end
+  | _ :: r => wf_run oc nl r
+  end.
+Definition releases_writes (nw : nat) (progs : list (list op)) : bool :=
+  forallb (wf_run (repeat false nw) (repeat false nw)) progs.
+
+Definition isSb {A} (o : option A) : bool := match o with Some _ => true | None => false end.
+Definition lkpc (p : pc) : bool :=
+  match p with L_lock | L_ldc | L_inc | L_ldr | L_call | L_rb | L_re | L_dec => true | _ => false end.
+(* the same for a thread in the middle of its program *)
+Definition wfl (l : loc) : Prop :=
+  let oc := map isSb (wsl l) in
+  if lkpc (at_ l)
+  then nolive oc = true /\ wf_run (upd oc (sl l) true) (nsl l) (prog l) = true /\ wf_run oc (nsl l) (prog l) = true
+  else wf_run oc (nsl l) (prog l) = true.
+
+Lemma map_upd {A B} (f : A -> B) (l : list A) i x : map f (upd l i x) = upd (map f l) i (f x).
+Proof. revert i; induction l as [|a r IH]; destruct i; cbn; auto. f_equal. apply IH. Qed.
+Lemma map_repeat' {A B} (f : A -> B) x n : map f (repeat x n) = repeat (f x) n.
+Proof. induction n; cbn; congruence. Qed.
+Lemma nth_isSb (w : list (option nat)) s : nth_error (map isSb w) s = option_map isSb (nth_error w s).
+Proof. apply nth_error_map. Qed.
+
+Lemma wfl_step t c g l g' l' es : tstep t c g l = Some (g', l', es) -> lok l -> wfl l -> wfl l'.
+Proof.
+  intros Hs (_ & _ & Hk) Hw. destruct l as [pr p ws ss xs s rcn rsd cv0 lr lc tm ed ba nd]. set (PC := p).
+  destruct p; step_cases Hs; unfold wfl, null_slot, nullb in *;
+    cbn [at_ prog wsl nsl sl lkpc set_at set_tmp set_cv set_rcnt set_lrl set_lcl set_wsl set_ssl set_ced set_nsl set_rside] in *;
+    rewrite ?map_upd; cbn [isSb]; try tauto.
+  all: cbn [wf_run] in Hw; rewrite ?nth_isSb in Hw;
+       repeat match goal with H : nth_error _ _ = _ |- _ => rewrite H in Hw end; cbn [option_map isSb] in Hw;
+       unfold nullb in Hw; repeat match goal with H : nth_error _ _ = _ |- _ => rewrite H in Hw end;
+       repeat match goal with H : match nth_error _ _ with _ => _ end = _ |- _ => rewrite H in Hw end.
+  all: try tauto.
+  all: try (rewrite !andb_true_iff in Hw; tauto).
+Qed.
+
+Definition Inv2 (g : glob) (ls : list loc) : Prop := Inv g ls /\ forall u l, nth_error ls u = Some l -> wfl l.
+Lemma Inv2_step : forall g ls t c l g' l' es,
+  Inv2 g ls -> nth_error ls t = Some l -> tstep t c g l = Some (g', l', es) -> Inv2 g' (upd ls t l').
+Proof.
+  intros g ls t c l g' l' es [HI HW] Hl Hs. split; [eapply Inv_step; eauto|].
+  intros u lu Hu. apply nth_upd in Hu. destruct Hu as [(<- & -> & _)|(Hne & Hu)]; [|apply (HW _ _ Hu)].
+  eapply wfl_step; eauto. apply (I_loc _ _ HI _ _ Hl).
+Qed.
+Lemma R_inv2 nw ns x pl progs s : R nw ns x pl progs s -> releases_writes nw progs = true -> Inv2 (gl s) (thr s).
+Proof.
+  intros HR Hwf. eapply reachable_inv; [apply Inv2_step| |exact HR].
+  split; [apply Inv_init|]. cbn. intros u l Hu. rewrite nth_error_map in Hu.
+  destruct (nth_error progs u) as [p|] eqn:Ep; inversion Hu; subst. unfold wfl, init_loc. cbn.
+  rewrite map_repeat'. cbn. unfold releases_writes in Hwf. rewrite forallb_forall in Hwf.
+  apply Hwf. apply (nth_error_In _ _ Ep).
+Qed.
+
+Lemma nolive_hasw (w : list (option nat)) : nolive (map isSb w) = true -> hasw w = false.
+Proof.
+  intros H. apply hasw_false. unfold nwhl, nolive in *. induction w as [|a r IH]; [reflexivity|].
+  cbn in H. apply andb_true_iff in H. destruct H as [Ha Hr]. specialize (IH Hr).
+  unfold list_sum in *. cbn. destruct a; cbn in *; [discriminate|exact IH].
+Qed.
+Lemma forallb_false_ex {A} (f : A -> bool) (l : list A) : forallb f l = false -> exists x, In x l /\ f x = false.
+Proof.
+  induction l as [|a r IH]; cbn; intros H; [discriminate|].
+  destruct (f a) eqn:E; [destruct (IH H) as [x [Hx Hf]]; exists x; auto|exists a; auto].
+Qed.
+(* every pc except the two lock acquisitions (and the end of the program) is enabled in every state *)
+Lemma step_enabled t c g l :
+  at_ l <> L_lock -> at_ l <> W_lock -> (at_ l = Idle -> prog l <> []) -> exists r, tstep t c g l = Some r.
+Proof.
+  intros H1 H2 H3. destruct (at_ l) eqn:Ep; try congruence.
+  1: { destruct (prog l) as [|o r0] eqn:Epr; [exfalso; apply H3; auto|]. apply (invoke_enabled t c g l o r0 Ep Epr). }
+  all: unfold tstep; rewrite Ep; unfold rd_begin, rd_end, wr_begin, wr_end, touch, srd_begin, swr_begin;
+       try (destruct (zmem _ _)); try (destruct (_ =? 0)); eexists; reflexivity.
+Qed.
+
+(* in every reachable, unfinished state of such programs some step that is not a drain retry is enabled *)
+Lemma progress_step nw ns x pl progs s :
+  R nw ns x pl progs s -> releases_writes nw progs = true -> all_fin glob loc fin s = false ->
+  exists t c l r, nth_error (thr s) t = Some l /\ tstep t c (gl s) l = Some r /\ is_retry (gl s) l = false.
+Proof.
+  intros HR Hwf Hnf. destruct (R_inv2 _ _ _ _ _ _ HR Hwf) as [HI HW].
+  destruct (existsb (fun l => rgpc (at_ l)) (thr s)) eqn:Erd.
+  - (* a thread registered in a reader counter (inside lock_shared / lock()): it can always move *)
+    apply existsb_exists in Erd. destruct Erd as [l [Hin Hp]]. apply In_nth_error in Hin. destruct Hin as [t Hl].
+    destruct (registered_enabled t 0%nat (gl s) l Hp) as [r Hr]. exists t, 0%nat, l, r. repeat split; auto.
+    unfold is_retry. destruct (at_ l); try discriminate; reflexivity.
+  - (* nobody is registered: both counters are zero, no drain loop goes round *)
+    assert (Hz : forall k, ctr (gl s) k = 0).
+    { intros k. rewrite (counters_count _ _ _ _ _ _ k HR). rewrite all_zero_sum; [reflexivity|].
+      intros u lu Hu. unfold reg. destruct (rgpc (at_ lu)) eqn:E; [|reflexivity]. exfalso.
+      assert (existsb (fun l => rgpc (at_ l)) (thr s) = true); [|congruence].
+      apply existsb_exists. exists lu. split; [apply (nth_error_In _ _ Hu)|exact E]. }
+    assert (Hnr : forall l, is_retry (gl s) l = false).
+    { intros l. unfold is_retry. destruct (at_ l); try reflexivity; rewrite Hz; reflexivity. }
+    assert (Hmove : forall u lu, nth_error (thr s) u = Some lu -> at_ lu <> L_lock -> opc (at_ lu) = false ->
+                    fin lu = false ->
+                    exists t c l r, nth_error (thr s) t = Some l /\ tstep t c (gl s) l = Some r /\ is_retry (gl s) l = false).
+    { intros u lu Hu Hnl Hop Hf. destruct (step_enabled u 0%nat (gl s) lu) as [r Hr]; auto.
+      - intros E. rewrite E in Hop. discriminate.
+      - intros E Hpr. unfold fin in Hf. rewrite E, Hpr in Hf. discriminate.
+      - exists u, 0%nat, lu, r. auto. }
+    destruct (omtx (gl s)) as [a|] eqn:Hm.
+    + destruct (I_oheld _ _ HI _ Hm) as [la [Ha Hown]].
+      destruct (opc (at_ la)) eqn:Eo.
+      * destruct (owner_enabled _ _ _ _ _ _ _ _ 0%nat HR Ha Eo) as (l0 & r & E0 & Hr).
+        assert (l0 = la) by congruence. subst l0. exists a, 0%nat, la, r. auto.
+      * (* the owner holds a write handle between two operations: its program is not finished, it is not in lock() *)
+        unfold owns in Hown. rewrite Eo in Hown. cbn in Hown. pose proof (HW _ _ Ha) as Hwl. unfold wfl in Hwl.
+        apply (Hmove a la Ha).
+        -- intros E. rewrite E in Hwl. cbn in Hwl. destruct Hwl as (Hn & _). rewrite (nolive_hasw _ Hn) in Hown. discriminate.
+        -- exact Eo.
+        -- unfold fin. destruct (at_ la) eqn:Ep; try reflexivity. destruct (prog la) eqn:Epr; [|reflexivity].
+           cbn in Hwl. rewrite (nolive_hasw _ Hwl) in Hown. discriminate.
+    + unfold all_fin in Hnf. apply forallb_false_ex in Hnf. destruct Hnf as [l [Hin Hf]].
+      apply In_nth_error in Hin. destruct Hin as [t Hl].
+      destruct (opc (at_ l)) eqn:Eo.
+      { assert (E : owns l = true) by (unfold owns; rewrite Eo; reflexivity).
+        pose proof (I_oown _ _ HI _ _ Hl E). congruence. }
+      destruct (at_ l) eqn:Hp; try (apply (Hmove t l Hl); [rewrite Hp; discriminate|rewrite Hp; exact Eo|exact Hf]).
+      destruct (lock_enabled_when_free t 0%nat (gl s) l Hp Hm) as [r Hr]. exists t, 0%nat, l, r. auto.
+Qed.
+
+Lemma mu_step_dec (s : sysR) t c l g' l' es :
+  nth_error (thr s) t = Some l -> tstep t c (gl s) l = Some (g', l', es) -> is_retry (gl s) l = false ->
+  stepR s (t, c) = Sys g' (upd (thr s) t l') /\ (mu (Sys g' (upd (thr s) t l')) < mu s)%nat.
+Proof.
+  intros Hl Hs Hr. split.
+  - unfold step, sys_step. rewrite Hl, Hs. reflexivity.
+  - pose proof (wloc_step _ _ _ _ _ _ _ Hs) as Hw. rewrite Hr in Hw.
+    pose proof (sum_upd wloc (thr s) t l l' Hl) as E. unfold mu. cbn [thr]. lia.
+Qed.
+
+(* from EVERY reachable state of programs that give back every write handle they take (and do not call lock()
+   while holding one) some schedule of at most mu(s) steps finishes every thread: readers and writers cannot
+   deadlock or livelock each other, whatever snapshots are kept *)
+Lemma eventually_finishes nw ns x pl progs s :
+  R nw ns x pl progs s -> releases_writes nw progs = true ->
+  exists sc, (length sc <= mu s)%nat /\ all_fin glob loc fin (runR s sc) = true.
+Proof.
+  intros HR Hwf. remember (mu s) as n eqn:En. assert (Hle : (mu s <= n)%nat) by lia. clear En.
+  revert s HR Hle. induction n as [|n IH]; intros s HR Hle.
+  - exists []. split; [cbn; lia|]. cbn.
+    destruct (all_fin glob loc fin s) eqn:Ef; [reflexivity|exfalso].
+    destruct (progress_step _ _ _ _ _ _ HR Hwf Ef) as (t & c & l & [[g' l'] es] & Hl & Hs & Hr).
+    destruct (mu_step_dec s t c l g' l' es Hl Hs Hr) as [_ Hd]. lia.
+  - destruct (all_fin glob loc fin s) eqn:Ef; [exists []; split; [cbn; lia|exact Ef]|].
+    destruct (progress_step _ _ _ _ _ _ HR Hwf Ef) as (t & c & l & [[g' l'] es] & Hl & Hs & Hr).
+    destruct (mu_step_dec s t c l g' l' es Hl Hs Hr) as [Est Hd].
+    destruct (IH (stepR s (t, c))) as [sc [Hlen Hfin]].
+    + apply R_step. exact HR.
+    + rewrite Est. lia.
+    + exists ((t, c) :: sc). split; [cbn [length]; lia|exact Hfin].
+Qed.
+Definition cow_eventually_finishes := eventually_finishes.
+
+(* non-vacuity of the hypothesis: a writer that moves its handle, cancels the moved-from object and keeps a snapshot
+   for ever; a reader that also writes; and the two ways to violate it (a handle that is never given back; lock()
+   re-entered while a handle is live) *)
+Lemma releases_writes_example :
+  releases_writes 2 [[LockShared 10 0; Lock 0; Write 0 10; Move 0 1; Cancel 0; Incr 1; ReleaseUnw 1; Release 0];
+                     [LockShared 10 0; ReadSnap 0; Lock 1; ReadH 1; Cancel 1; DropSnap 0; Lock 0; Release 0]] = true /\
+  releases_writes 1 [[Lock 0; Write 0 10]] = false /\
+  releases_writes 2 [[Lock 0; Lock 1; Release 1; Release 0]] = false.
+Proof. repeat split; reflexivity. Qed.
